@@ -294,7 +294,9 @@ pub mod stall {
         pub target: &'static str,
         pub entry: Entry,
         pub opt: usize,
+        /// the whole input when it is <= SMALL_INPUT bytes, else its first 256 bytes
         pub input: Vec<u8>,
+        pub full_len: usize,
         pub cpu0: f64,
         pub thread: libc::pthread_t,
         pub handled: bool,
@@ -334,6 +336,7 @@ pub mod stall {
                 entry: Entry::FromStr,
                 opt: 0,
                 input: Vec::new(),
+                full_len: 0,
                 cpu0: 0.0,
                 thread: unsafe { libc::pthread_self() },
                 handled: false,
@@ -343,7 +346,8 @@ pub mod stall {
             cur.entry = entry;
             cur.opt = opt;
             cur.input.clear();
-            cur.input.extend_from_slice(input);
+            cur.input.extend_from_slice(if input.len() <= super::SMALL_INPUT { input } else { &input[..256] });
+            cur.full_len = input.len();
             cur.cpu0 = cpu0;
             cur.handled = false;
         });
@@ -369,6 +373,7 @@ pub mod stall {
         pub entry: Entry,
         pub opt: usize,
         pub input: Vec<u8>,
+        pub full_len: usize,
         pub cpu_s: f64,
     }
 
@@ -392,10 +397,10 @@ pub mod stall {
             }
             let now = ts.tv_sec as f64 + ts.tv_nsec as f64 / 1e9;
             let used = now - c.cpu0;
-            let limit = if c.input.len() <= super::SMALL_INPUT { super::CPU_BOUND_S * 1.25 } else { super::BIG_STALL_S };
+            let limit = if c.full_len <= super::SMALL_INPUT { super::CPU_BOUND_S * 1.25 } else { super::BIG_STALL_S };
             if used > limit {
                 c.handled = true;
-                out.push(Stalled { target: c.target, entry: c.entry, opt: c.opt, input: c.input.clone(), cpu_s: used });
+                out.push(Stalled { target: c.target, entry: c.entry, opt: c.opt, input: c.input.clone(), full_len: c.full_len, cpu_s: used });
             }
         }
         out
